@@ -14,7 +14,7 @@ import (
 // carries them, and the receiver is handed slices of recycled receive buffers.
 func streamWorld(c *core.Ctx, nframes int, produce func(k int) [][]byte, deliver func(d datagram, buf []byte)) {
 	t := c.T
-	loop := core.NewLoop(c, 200000)
+	loop := core.NewLoop(c, 450000)
 	pool := newRxPool(c, 1+t.Intn(3))
 	w := newWire(c, loop, drawWireCfg(t, "clean"), func(d datagram) { deliver(d, pool.put(d.b)) })
 	var prev, prevSnap [][]byte
@@ -280,7 +280,7 @@ func runC11Foreign(c *core.Ctx) {
 	long.SetZeroAllocation(zeroAlloc)
 	for k := 0; k < n; k++ {
 		d, desc := genVP8Desc(t)
-		payload := t.Bytes(t.Intn(20))
+		payload := t.Bytes(c11PayloadLen(t, 20))
 		pkt := append(append([]byte{}, desc...), payload...)
 		rx := &codecs.VP8Packet{}
 		rx.SetZeroAllocation(zeroAlloc)
@@ -398,6 +398,11 @@ func runC12(c *core.Ctx) {
 	// runs are sufficient for both modes)
 	toggling := mtu >= 12 && t.Chance(1, 5)
 	varyMTU := t.Chance(1, 6)
+	hugeCount := t.Chance(1, 1500) // one frame that needs more than 65535 packets at the smallest MTU
+	if hugeCount {
+		mtu, nframes, toggling, varyMTU = minMTU, 1, false, false
+		c.Probe("frame-needing-more-than-65535-packets")
+	}
 	sendFlex := flex
 	flexOf := map[int]bool{} // frame index -> mode at that call (lookup only)
 	streamWorld(c, nframes, func(k int) [][]byte {
@@ -416,6 +421,10 @@ func runC12(c *core.Ctx) {
 			c.Probe("sibling-key-frame")
 		} else {
 			f = genVP9Frame(t, mtu)
+		}
+		if hugeCount {
+			f = genVP9Frame(t, 1200)
+			f.data = append(f.data, t.Bytes((65540+t.Intn(2000))*(mtu-3))...)
 		}
 		frames = append(frames, f)
 		var ps [][]byte
@@ -527,7 +536,7 @@ func runC12Foreign(c *core.Ctx) {
 	long.SetZeroAllocation(zeroAlloc)
 	for k := 0; k < n; k++ {
 		d, desc := genVP9Desc(t)
-		payload := t.Bytes(t.Intn(16))
+		payload := t.Bytes(c11PayloadLen(t, 16))
 		pkt := append(append([]byte{}, desc...), payload...)
 		rx := &codecs.VP9Packet{}
 		rx.SetZeroAllocation(zeroAlloc)
@@ -590,4 +599,13 @@ func runC12Foreign(c *core.Ctx) {
 			c.Probe("foreign-truncated-rejected")
 		}
 	}
+}
+
+// c11PayloadLen: mostly short payloads behind a foreign descriptor, sometimes lengths around multiples of 256
+// (what is left after a descriptor field is then a value whose low 8 bits are 0 or 1).
+func c11PayloadLen(t *core.Tape, small int) int {
+	if t.Chance(1, 8) {
+		return 256*(1+t.Intn(4)) - 6 + t.Intn(12)
+	}
+	return t.Intn(small)
 }
